@@ -22,7 +22,6 @@ import tlo_lib
 PROPS = "Props/C27"
 FAMILY = "tlo"
 CORR = "corr:C27:mig"
-DRIVER = ("main.go", "ops_tl1.go", "ops_tlo.go")
 
 
 def clean(msg):
@@ -36,7 +35,7 @@ class MigUnit:
         self.error = None          # machinery error (no-failing-input-found)
         self.compile_error = None  # the migrated schema does not compile: the property is broken
         self.A = self.B = None
-        self.go = self.gm = None
+        self.pk = None
         self.mig_files = []
         self.migrated_types = 0
         self.log = ""
@@ -92,19 +91,17 @@ def prepare_go(ctx, u, bins):
     if u.A is None or u.B is None:
         return u
     of, files = u.orig_files, u.mig_files
-    opts = [f"--tl2WhiteList={u.wl}"]
-    go = schema_ir.GenPkg(ctx.scratch, u.name + "_o", bins["tl2gen"], of, opts, driver_files=DRIVER)
-    gm = schema_ir.GenPkg(ctx.scratch, u.name + "_m", bins["tl2gen"], files, opts, driver_files=DRIVER)
-    if not go.generate() or not go.build():
-        u.error = "original package: " + clean(go.gen_log)[-600:]
+    pk = tlo_lib.MigPkg(ctx.scratch, u.name, bins["tl2gen"], of, files, [f"--tl2WhiteList={u.wl}"])
+    if not pk.prepare():
+        log = clean(pk.log)[-700:]
+        if pk.failed == "gen-mig":
+            u.compile_error = "tl2gen --language=go rejects the migrated schema: " + log
+        elif pk.failed == "build-mig":
+            u.compile_error = "Go code generated from the migrated schema does not build: " + log
+        else:
+            u.error = f"{pk.failed}: " + log
         return u
-    if not gm.generate():
-        u.compile_error = "tl2gen --language=go rejects the migrated schema: " + clean(gm.gen_log)[-600:]
-        return u
-    if not gm.build():
-        u.compile_error = "Go code generated from the migrated schema does not build: " + clean(gm.gen_log)[-600:]
-        return u
-    u.go, u.gm = go, gm
+    u.pk = pk
     return u
 
 
@@ -161,7 +158,7 @@ def run(ctx):
                                          "cases.testDictString", "casesTL2.testObject", "cases.TestUnion"])))
         units.append(MigUnit("goldmaster_all", "repo", [TLS / "goldmaster.tl", TLS / "goldmaster2.tl", TLS / "goldmaster3.tl"], "*"))
         import randschema
-        n_r, n_go = (10, 3) if quick else (60, 60)
+        n_r, n_go = (10, 2) if quick else (60, 60)
         rand_units = []
         for i in range(n_r):
             d = ctx.scratch / f"rm{i}"
@@ -256,27 +253,28 @@ def run(ctx):
                         st["roots_certified"] += len(good)
                     elif res2 is not None:
                         uinfra.append((f"{pid}:closure:{u.name}", f"sub-correspondence of the unaffected roots is rejected: {trunc(res2, 100)}", {}))
-        if u.go and u.gm:
-            def items(e):
-                rc, out, err = run_lines(e, [], ["items"])
+        if u.pk:
+            exe = u.pk.exe
+            def items(side):
+                rc, out, err = run_lines(exe, [], [f"{side} items"])
                 return {x.split(",")[0]: x.split(",") for x in out[0][3:].split(";")} if out and out[0].startswith("ok ") else {}
-            io, im = items(u.go.exe), items(u.gm.exe)
+            io, im = items("o"), items("m")
             migrated_names = {y["tlName"] for y in u.B if y.get("topLevel") and y.get("originTL2") and y["kind"] in ("struct", "union")}
             common = sorted(n for n in set(io) & set(im) if io[n][4] == "true" and im[n][4] == "true" and n in migrated_names)
             st["types_driven"] += len(common)
             root_of = {x["tlName"]: x["id"] for x in u.A if x.get("topLevel") and x.get("tlName")}
             # direction 1: values of the original package
-            l1 = [f"mrand {n} {r.getrandbits(48)}" for n in common for _ in range(nvals)]
-            o1 = run_lines_resilient(u.go.exe, [], l1, timeout=600)
+            l1 = [f"o mrand {n} {r.getrandbits(48)}" for n in common for _ in range(nvals)]
+            o1 = run_lines_resilient(exe, [], l1, timeout=600)
             vals = []
             for l, o in zip(l1, o1):
                 f = o.split(" ")
                 if f[0] == "ok" and f[2] != "jsonerr":
-                    vals.append((l.split(" ")[1], f[1], f[2]))
+                    vals.append((l.split(" ")[2], f[1], f[2]))
             st["values_orig"] += len(vals)
-            l2 = [f"mread2 {n} {t}" for n, t, j in vals] + [f"mreadj {n} {j}" for n, t, j in vals]
-            m2 = run_lines_resilient(u.gm.exe, [], l2, timeout=600)
-            o2 = run_lines_resilient(u.go.exe, [], l2[len(vals):], timeout=600)     # the original's own JSON round trip
+            l2 = [f"m mread2 {n} {t}" for n, t, j in vals] + [f"m mreadj {n} {j}" for n, t, j in vals]
+            m2 = run_lines_resilient(exe, [], l2, timeout=600)
+            o2 = run_lines_resilient(exe, [], [f"o mreadj {n} {j}" for n, t, j in vals], timeout=600)     # the original's own JSON round trip
             for k, (n, t, j) in enumerate(vals):
                 st["tl2_reads"] += 1
                 want = f"ok {0 if t == '-' else len(t) // 2} {t} {j}"
@@ -290,15 +288,15 @@ def run(ctx):
                         ubad.append((f"{pid}:json:{u.name}:{n}", f"{op}: type {n}: JSON {trunc(bytes.fromhex(j).decode('utf-8', 'replace') if j != '-' else '', 100)} of an original value is read/rewritten by the migrated package as {trunc(m2[len(vals) + k], 120)}",
                                      dict(replay, type=n, tl2=t, json=bytes.fromhex(j).decode("utf-8", "replace") if j != "-" else "", migrated=m2[len(vals) + k])))
             # direction 2: values of the migrated package
-            l3 = [f"mrand {n} {r.getrandbits(48)}" for n in common for _ in range(max(3, nvals // 3))]
-            o3 = run_lines_resilient(u.gm.exe, [], l3, timeout=600)
+            l3 = [f"m mrand {n} {r.getrandbits(48)}" for n in common for _ in range(max(3, nvals // 3))]
+            o3 = run_lines_resilient(exe, [], l3, timeout=600)
             vals2 = []
             for l, o in zip(l3, o3):
                 f = o.split(" ")
                 if f[0] == "ok" and f[2] != "jsonerr":
-                    vals2.append((l.split(" ")[1], f[1], f[2]))
+                    vals2.append((l.split(" ")[2], f[1], f[2]))
             st["values_mig"] += len(vals2)
-            o4 = run_lines_resilient(u.go.exe, [], [f"mread2 {n} {t}" for n, t, j in vals2], timeout=600)
+            o4 = run_lines_resilient(exe, [], [f"o mread2 {n} {t}" for n, t, j in vals2], timeout=600)
             for (n, t, j), o in zip(vals2, o4):
                 want = f"ok {0 if t == '-' else len(t) // 2} {t} {j}"
                 if o != want:
@@ -349,7 +347,7 @@ def run(ctx):
         "trusted_base": ["Coq 8.16.1 kernel",
                          "translator overlay/cmd/verifdump + lib/tlo_lib.py mig_view_lines (kernel dump -> TL2 view); the candidate correspondence (mig_phi, mig_roots) is NOT trusted: the extracted tl2_equiv / roots_covered validate it",
                          "extraction ExtrOcamlBasic only; ocaml/conv.ml, ocaml/drv_tlo.ml",
-                         "Go harness harness/go/gendrv (main.go, ops_tl1.go, ops_tlo.go); comparison in lib/checks/C27.py",
+                         "Go harness harness/go/tlodrv (one binary over both generated packages); comparison in lib/checks/C27.py",
                          "that the generated TL2 and JSON writers are attribute-only compositional encoders over the compared attributes is the model of the Tl2/Json families (not proved here)",
                          "axioms: " + (", ".join(thm["axioms"]) if thm["axioms"] else "none (every theorem closed under the global context)")],
         "theorems": thm["statements"], "assumptions_per_theorem": thm["assumptions"],
@@ -361,7 +359,7 @@ def run(ctx):
         "op_kinds": kinds, "stats": stats, "correspondence": CORR, "correspondence_mismatches": len(mism), "oracle_failures": len(bad),
         "samples": samples or [{"note": "no value driven"}],
         "units": [{"name": u.name, "kind": u.kind, "whitelist": u.wl, "accepted": u.accepted, "migrated_types": u.migrated_types,
-                   "instances": [len(u.A or []), len(u.B or [])], "go": bool(u.go and u.gm), "log": trunc(u.log, 160) if not u.accepted else None} for u in units],
+                   "instances": [len(u.A or []), len(u.B or [])], "go": bool(u.pk), "log": trunc(u.log, 160) if not u.accepted else None} for u in units],
     })
     ctx.assumptions += ["64-bit platform", "values are produced by FillRandom of the generated packages (F7 stack overflows are left to C18)",
                         "tl2_equiv treats vectors and dynamically sized tuples alike (same TL2 wire format); the original JSON writer's length checks against nat "
